@@ -665,10 +665,22 @@ class Interp:
                         changed = True
                 else:
                     nb = []
-                    before = None
                     self.exec_stmt(sc, a.body, nb)
-                    if self._apply_nb(nb):
-                        changed = True
+                    # several non-blocking assignments to one target in a combinational block: only the net effect counts
+                    before = {}
+                    for s2, lv, v, idx in nb:
+                        names = []
+                        self._lv_names(lv, names)
+                        for n in names:
+                            k = (id(s2), n)
+                            if k not in before:
+                                before[k] = (s2, n, list(s2.mems[n]) if n in s2.mems else s2.vals.get(n))
+                    self._apply_nb(nb)
+                    for s2, n, old in before.values():
+                        now = s2.mems[n] if n in s2.mems else s2.vals.get(n)
+                        if now != old:
+                            changed = True
+                            break
             if not changed:
                 return it + 1
             if not self.comb_cycle and it >= 1:
